@@ -57,6 +57,9 @@ Effect(c) ==
          ELSE OkA(FA(a.dim, [k \in 1..Len(a.vs) |-> IF k = Pos(c.idx, Len(a.vs)) THEN amount ELSE Conv(a.u, ru, a.vs[k])], ru))
     [] c.op = "IndexAsScalar" -> LET a == pool[c.i] IN
          IF ~InRange(c.idx, Len(a.vs)) THEN Fail("INDEX") ELSE OkX(Conv(a.u, c.u, a.vs[Pos(c.idx, Len(a.vs))]))
+    \* Curve.GetLength() and curve[i] = (domain value, image value) at a Python index; the replayer fills image and domain with 0, 1, 2, ...
+    [] c.op = "CurveLen"  -> OkX(R(curve.img))
+    [] c.op = "CurveItem" -> IF InRange(c.idx, curve.img) THEN OkX(R(Pos(c.idx, curve.img) - 1)) ELSE Fail("INDEX")
     [] c.op \in {"SetImage", "SetDomain"} -> IF c.n = (IF c.op = "SetImage" THEN curve.dom ELSE curve.img) THEN OkX(Zero) ELSE Fail("VALUE")
 
 Appends(op) == op \in {"Ctor", "CtorDefault", "CreateWithQuantity", "CreateEmptyArray", "CreateCopy", "CopyToUnit", "CopyValuesTo", "Pickle", "Scale", "AddArrays", "ChangingIndex"}
@@ -91,10 +94,12 @@ IndexAsScalar == \E i \in I, idx \in (-MaxDim - 1)..MaxDim, u \in Us : pool[i].u
 \* form "points": the values are n points of size two (a list of pairs / a two-dimensional numpy array) - the length is the number of points
 SetImage == \E n \in Lens, f \in {"", "points", "points2d"} : Step([C("SetImage") EXCEPT !.n = n, !.form = f])
 SetDomain == \E n \in Lens, f \in {"", "points", "points2d"} : Step([C("SetDomain") EXCEPT !.n = n, !.form = f])
+CurveLen == Step(C("CurveLen"))
+CurveItem == \E idx \in (-MaxDim - 1)..MaxDim : Step([C("CurveItem") EXCEPT !.idx = idx])
 Init == /\ TLCSet(2, 1 + (EmitOffset % 65520)) /\ pool = <<>> /\ hist = <<>>
         /\ \E k \in Lens : curve = [img |-> k, dom |-> k]               \* Curve(image, domain) of equal lengths
 Next == Ctor \/ CtorDefault \/ CreateWithQuantity \/ CreateEmptyArray \/ CreateCopy \/ CopyToUnit \/ CopyValuesTo \/ Pickle \/ Scale \/ AddArrays
-        \/ ChangingIndex \/ IndexAsScalar \/ SetImage \/ SetDomain
+        \/ ChangingIndex \/ IndexAsScalar \/ SetImage \/ SetDomain \/ CurveLen \/ CurveItem
 Spec == Init /\ [][Next]_vars
 Bounded == Len(pool) <= 3
 
